@@ -1,13 +1,25 @@
 (** Extraction of the executable models and specifications to OCaml.
-    ExtrOcamlBasic only: numbers (nat, positive, N, Z, Q) stay the extracted
-    inductive types.  Run with the build directory as working directory:
+    ExtrOcamlBasic (bool, option, unit, list, prod, sumbool, sumor, andb, orb)
+    and ExtrOcamlZBigInt (positive, N, Z as arbitrary-precision integers of
+    the zarith library: no overflow; its directives are listed in DESIGN.md);
+    nat and Q stay the extracted inductive / record types.  A sample of every
+    run is re-evaluated inside Coq with vm_compute and compared with the
+    extracted program (tools/coq_eval.py), so the extraction directives are not
+    trusted blindly.  Run with the build directory as working directory:
     the files sbmodel.ml / sbmodel.mli are written there. *)
-From Coq Require Import Extraction ExtrOcamlBasic.
+From Coq Require Import Extraction ExtrOcamlBasic ExtrOcamlZBigInt.
 From SB Require Import Base.Prelude Gen.Generated Model.Codec Model.Colors Spec.CodecSpec
   Model.Crc Model.Container Spec.CrcSpec Spec.ContainerSpec Model.Loaders Model.Rth Spec.RthSpec
-  Base.Num Model.Poly Model.Traj Spec.BezierSpec Spec.TrajSpec Model.Yaw Spec.YawSpec Model.Light Spec.LightSpec Base.F32 Model.Utils Model.Builder Model.Buffer.
+  Base.Num Model.Poly Model.Traj Spec.BezierSpec Spec.TrajSpec Model.Yaw Spec.YawSpec Model.Light Spec.LightSpec Base.F32 Model.Utils Model.Builder Model.Buffer Model.RootCert Model.Stats.
 
 Extraction Language OCaml.
+
+(** Two further directives (performance only; cross-checked like the rest):
+    gcd with cofactors and gcd on zarith integers.  Coq: Z.ggcd a b = (g, (aa, bb))
+    with g >= 0, a = g * aa, b = g * bb. *)
+Extract Constant Z.ggcd =>
+  "(fun a b -> let g = Z.gcd a b in if Z.equal g Z.zero then (Z.zero, (Z.zero, Z.zero)) else (g, (Z.divexact a g, Z.divexact b g)))".
+Extract Constant Z.gcd => "(fun a b -> Z.gcd a b)".
 
 Extraction "sbmodel.ml"
   (* C19 *)
@@ -31,4 +43,7 @@ Extraction "sbmodel.ml"
   builder_init set_start_position append_line hold_position_for finish rth_to_trajectory
   travel_time scale_update msec_of_sec interval_expand rnd32 fadd fsub fmul fdiv fsqrt position_at
   interp_rgb rgbw_reference buf_init buf_init_from_bytes buf_init_view buf_resize buf_clear buf_prune buf_fill
-  buf_append buf_extend_zeros bf_size.
+  buf_append buf_extend_zeros bf_size
+  (* C13 C14 C15 C18 *)
+  propose_takeoff propose_landing poly_max poly_min first_root root_boxes merge_boxes sign_change cauchy_bound
+  shift_poly qeval irange zpoly.
